@@ -63,12 +63,16 @@ def default_cfg():
             "default_field_case": "snake_case", "visualize_deps": False, "include_private": False, "force": None}
 
 
-def multi_project(nfiles, with_structs=True):
+TIE_NAMES = ["Sync.rs", "sync.rs", "a_b.rs", "ab.rs", "a.rs", "A.rs", "a-b.rs", "sync_.rs"]
+
+
+def multi_project(nfiles, with_structs=True, names=None, events_each=False):
     """nfiles source files, one command each (+ one struct each); discovery order of the commands is the
     iteration order of the tool's file map."""
     files = []
     for i in range(nfiles):
-        f = {"path": "m%d.rs" % i, "structs": [], "events": [],
+        f = {"path": names[i] if names else "m%d.rs" % i, "structs": [],
+             "events": [{"name": "ev-%d" % i, "payload": "String"}] if events_each else [],
              "commands": [{"name": "cmd_%d" % i, "async": False, "rename_all": None,
                            "params": [{"name": "arg_%d" % i, "type": "T%d" % i if with_structs else "u32"}],
                            "ret": "String", "channels": []}]}
@@ -77,6 +81,61 @@ def multi_project(nfiles, with_structs=True):
                 {"name": "val_%d" % i, "type": "u32", "public": True, "rename": None, "skip": False, "validator": None}]})
         files.append(f)
     return {"files": files, "cfg": default_cfg()}
+
+
+def _st(name, fields):
+    return {"name": name, "is_enum": False, "rename_all": None, "fields": [
+        {"name": n, "type": t, "public": True, "rename": None, "skip": False, "validator": None} for n, t in fields]}
+
+
+ROUTE_TYPES = ["EvOnly", "EvNested", "EvKind", "ChOnly", "ChNested", "ErrT"]
+
+
+def routes_project():
+    """base project + types each reachable through one route only: an event payload (EvOnly), nested below one (EvNested),
+    an enum payload (EvKind), a channel message (ChOnly), nested below it (ChNested), the error position of a result (ErrT)"""
+    d = base_project()
+    f = d["files"][0]
+    f["structs"] += [_st("EvOnly", [("id", "u32"), ("inner", "EvNested")]), _st("EvNested", [("flag", "bool")]),
+                     {"name": "EvKind", "is_enum": True, "rename_all": None, "fields": [{"name": "Started", "rename": None},
+                                                                                       {"name": "Done", "rename": None}]},
+                     _st("ChOnly", [("n", "u32"), ("deep", "ChNested")]), _st("ChNested", [("v", "String")]),
+                     _st("ErrT", [("code", "u32")])]
+    f["events"] += [{"name": "ev-only", "payload": "EvOnly"}, {"name": "ev-kind", "payload": "EvKind", "via_param": True}]
+    f["commands"].append({"name": "stream_items", "async": True, "rename_all": None, "params": [], "ret": "Result<(), ErrT>",
+                          "channels": [{"name": "on_item", "msg": "ChOnly"}]})
+    return d
+
+
+def route_edit(d, type_name, kind):
+    """one edit confined to the definition of one type: field_type | field_add | rename | validator | variant"""
+    s_ = _struct(d, type_name)
+    if s_["is_enum"]:
+        if kind == "variant":
+            if any(v["name"] == "Failed" for v in s_["fields"]):
+                s_["fields"][:] = [v for v in s_["fields"] if v["name"] != "Failed"]
+            else:
+                s_["fields"].append({"name": "Failed", "rename": None})
+        elif kind == "rename":
+            _toggle(s_["fields"][0], "rename", None, "begun")
+        return
+    f0 = s_["fields"][0]
+    if kind == "field_type":
+        other = {"u32": "String", "String": "u32", "bool": "u8", "u8": "bool"}
+        f0["type"] = other.get(f0["type"], "u32")
+    elif kind == "field_add":
+        if any(f["name"] == "extra" for f in s_["fields"]):
+            s_["fields"][:] = [f for f in s_["fields"] if f["name"] != "extra"]
+        else:
+            s_["fields"].append({"name": "extra", "type": "u8", "public": True, "rename": None, "skip": False, "validator": None})
+    elif kind == "rename":
+        _toggle(f0, "rename", None, "renamed")
+    elif kind == "validator":
+        _toggle(f0, "validator", None, "range(min = 1, max = 9)")
+
+
+ROUTE_EDITS = ["rt:%s:%s" % (t, k) for t in ROUTE_TYPES
+               for k in (("variant", "rename") if t == "EvKind" else ("field_type", "field_add", "rename", "validator"))]
 
 
 # ------------------------------------------------------------------ rendering to Rust / config
@@ -129,6 +188,13 @@ def render_rs(f):
         o.append("}")
         o.append("")
     for i, e in enumerate(f["events"]):
+        if e.get("via_param"):
+            # the payload is a typed parameter (enums: a variant path would be taken for the type name)
+            o.append("fn emit_%d(app: tauri::AppHandle, payload: %s) {" % (i, e["payload"]))
+            o.append('    app.emit("%s", payload).unwrap();' % e["name"])
+            o.append("}")
+            o.append("")
+            continue
         o.append("fn emit_%d(app: tauri::AppHandle) {" % i)
         o.append('    app.emit("%s", %s).unwrap();' % (e["name"], payload_expr(e["payload"])))
         o.append("}")
@@ -701,5 +767,9 @@ EDITS = {
 
 def apply_edit(desc, name):
     d = copy.deepcopy(desc)
-    EDITS[name](d)
+    if name.startswith("rt:"):
+        _, t, k = name.split(":")
+        route_edit(d, t, k)
+    else:
+        EDITS[name](d)
     return d
